@@ -1,16 +1,18 @@
 SETUP = "./setup.sh"
 HOOKS = dict(
-    guard="cfg(kani)",
-    enable="cargo kani sets --cfg kani by itself; Verus units need no hook (functions are extracted from /repo/src on every run)",
+    guard="cfg(kani) and cfg(nundb_verif)",
+    enable="cargo kani sets --cfg kani by itself (harness modules); the native replay/sweep crate is built with RUSTFLAGS='--cfg nundb_verif' "
+           "(vk/replay_driver.py), which exposes http_ops::verif_process_commands, a public wrapper around the private process_commands; "
+           "Verus units need no hook (functions are extracted from /repo/src on every run)",
     baseline_off_cmd="cd /repo && cargo test --workspace --no-fail-fast --offline",
-    source_commits=["9b2d413", "089481e", "f29fb54", "b91bd80"],
+    source_commits=["9b2d413", "089481e", "f29fb54", "b91bd80", "e4b729e"],
     add_only=True,
 )
 ENGINES = [
     dict(name="kani-harnesses", path="/verif/vk/kani_unit.py", serves_properties=["C01", "C02", "C08", "C09", "C12"],
          kind_free_text="cargo kani on the real crate; harness files /verif/kani/*_proofs.rs are compiled into the defining modules through cfg(kani) hooks; "
                         "loop-free full-domain harnesses are complete, harnesses with symbolic strings are bounded stand-ins and never counted as proved"),
-    dict(name="verus-units", path="/verif/vk/verus_unit.py", serves_properties=["C01", "C02", "C03", "C08", "C09", "C10", "C12", "C13", "C15", "C16", "C17", "C19"],
+    dict(name="verus-units", path="/verif/vk/verus_unit.py", serves_properties=["C01", "C02", "C03", "C08", "C09", "C10", "C12", "C13", "C15", "C16", "C17", "C19", "C20"],
          kind_free_text="mechanical extraction of the real functions (vk/extract.py, rules R1-R8) + contracts/<unit>.vc, discharged by Verus 0.2026.09.13 / Z3; "
                         "every diagnostic is mapped back to a named obligation (function::label)"),
 ]
@@ -108,6 +110,19 @@ CHECKS = {
         level_note="Sequential semantics. That the three transports call Client::left exactly once per ended session is glue (checked only by the bounded "
                    "sweep through the public API). get_mut / mem::replace have trusted specs.",
     ),
+    "C20": dict(
+        engine="verus-units", design_ref="DESIGN.md §5 C20 (claimed in §10 after fix a6540e8)", technique="deductive verification (Verus/Z3) of a function contract with loop invariants on the extracted real process_commands, over a FIFO model of the session's channel with a ghost call history",
+        text="For every body (any number of commands, any blanks, any trailing ';') and whatever each command returns or queues: the REAL "
+             "http_ops::process_commands executes every non-blank trimmed command exactly once in body order (then `unwatch-all`), returns exactly one entry per "
+             "executed command, and entry i is what command i itself produced - its error text, else the first message it queued itself, else `empty` - because "
+             "the loop invariant 'the session's queue is empty when the next command starts' holds; at the end the session holds no subscription and no "
+             "connection count. process_request is a trusted boundary that may return anything and append any messages; each execution is recorded in a ghost "
+             "history so 'once each, in order' is a postcondition, not an assumption. The bounded native sweep runs bodies of 1-3 commands through the real "
+             "function (hook cfg(nundb_verif)) against per-command expectations.",
+        level_note="HTTP only: the WebSocket transport streams queued messages and has no reply vector. Sequential: messages pushed by other sessions during "
+                   "the request are not modelled. start_http_client's glue (fresh Client per request, join with ';') is not verified. What a command returns or "
+                   "queues is not decided here.",
+    ),
     "C19": dict(
         engine="verus-units", design_ref="DESIGN.md §5 C19", technique="deductive verification (Verus/Z3) of function contracts on extracted real code",
         text="Sequential half, for all states and versions: on a newer-strategy database set_key_value / apply_change_to_db_try_fix_conflicts / "
@@ -147,5 +162,4 @@ NOT_APPLICABLE = {
     "C11": "Crash points of a writer are not expressible as pre/postconditions of a call; neither verifier has a crash-consistent file model.",
     "C14": "A bound on inter-node traffic is a global ranking argument over the dispatcher and the replication loop on several nodes.",
     "C18": "Both S3 strategies are async AWS-SDK network code inside a tokio runtime.",
-    "C20": "Alignment depends on which handlers push on the client channel while also returning an error - a fact about the dispatcher; process_commands alone cannot be given a contract that is not an assumption of the conclusion.",
 }
